@@ -107,16 +107,34 @@ def wf_clauses(node: Any) -> list[str]:
 	vals = prop_values(node)
 	keys = [k for k, _ in vals]
 	terminal = not node.can_expand
+	count = lambda v: len(v) if isinstance(v, list) else 1  # noqa: E731
 	out = []
-	if terminal and keys:
+	if terminal and any(count(v) for _, v in vals):
 		out.append('terminal-with-props')
 	if not terminal and not prop_expand(vals) and node._under_expand():
 		out.append('under-not-consumed')
-	if len(set(keys)) != len(keys):
+	if any(keys.count(k) > 1 and count(v) for k, v in vals):
 		out.append('duplicate-key')
 	if any(is_ann_list(node, k) != isinstance(v, list) for k, v in vals):
 		out.append('annotation-shape')
 	return out
+
+
+def under_quiet(node: Any) -> bool | None:
+	"""`underQuiet` of Lemmas/ProcedureExpand.lean on the real entry of a node: no child, or only unresolvable tree
+	entries within three levels (independent of Nodes.expand). None when the node has no entry (dirty_child proxies)."""
+	nodes = node._Node__nodes
+	entries = getattr(nodes, '_Nodes__entries', None)
+	resolver = getattr(nodes, '_Nodes__resolver', None)
+	if entries is None or resolver is None or not entries.exists(node.full_path):
+		return None
+	entry = entries.by(node.full_path)
+
+	def quiet(e: Any, d: int) -> bool:
+		if not e.has_child:
+			return False
+		return not resolver.can_resolve(e.name) and (d == 0 or all(quiet(c, d - 1) for c in e.children))
+	return all(quiet(c, 2) for c in entry.children) if entry.has_child else True
 
 
 class Exporter:
@@ -127,6 +145,7 @@ class Exporter:
 		self.lines: list[str] = []
 		self.unstable: list[str] = []
 		self.positions: list[tuple[int, Any]] = []
+		self.under_stats: Counter[str] = Counter()
 
 	def export(self, node: Any) -> int:
 		terminal = not node.can_expand
@@ -141,6 +160,8 @@ class Exporter:
 			slots = [self.export(c) for c in kids]
 			flags = ('L' if is_ann_list(node, k) else 'S') + ('L' if shape else 'S')
 			props.append(f"{hx(k)}:{flags}:{','.join(map(str, slots)) or '-'}")
+		if not prop_expand(vals):
+			self.observe_under(node, terminal, bool(vals))
 		under_slots: list[int] = []
 		if not terminal and not prop_expand(vals):
 			# the only situation in which node.py:252 consults _under_expand()
@@ -150,6 +171,25 @@ class Exporter:
 			';'.join(props) or '-', ','.join(map(str, under_slots)) or '-']))
 		self.positions.append((slot, node))
 		return slot
+
+
+def _observe_under(self: Exporter, node: Any, terminal: bool, has_keys: bool) -> None:
+	"""Diagnostics for WF clause 2 (never part of the exported tree): what `_under_expand()` would yield for a node whose
+	properties yield nothing, and whether that agrees with `under_empty_iff` (the entry is quiet)."""
+	try:
+		under = bool(node._under_expand())
+	except Exception:  # noqa: BLE001 - proxies without an entry
+		self.under_stats['no entry (dirty_child proxy)'] += 1
+		return
+	kind = 'terminal' if terminal else 'non-terminal'
+	cls = type(node).__mro__[1].__name__ if type(node).__name__ == 'Proxy' else type(node).__name__
+	self.under_stats[f"{kind}, {'properties yield nothing' if has_keys else 'no expandable property'}, _under_expand() {'NON-EMPTY' if under else 'empty'}: {cls}"] += 1
+	q = under_quiet(node)
+	if q is not None:
+		self.under_stats['under_empty_iff agrees with the real Nodes.expand' if q == (not under) else f'under_empty_iff DISAGREES at {cls}'] += 1
+
+
+Exporter.observe_under = _observe_under  # type: ignore[attr-defined]
 
 
 def fmt_val(v: Any) -> str:
@@ -356,8 +396,20 @@ def gen_synth_spec(rng: random.Random, dirty: bool) -> dict[str, Any]:
 			nkeys = 0 if terminal else rng.choice([0, 1, 1, 2, 2, 3])
 			keys = [[k, rng.random() < 0.5] for k in rng.sample(keypool, nkeys)]
 			base = None
+			empty_keys: list[str] = []
 			if dirty and terminal and not first and rng.random() < 0.25:
 				keys = [[rng.choice(keypool), rng.random() < 0.5]]  # terminal with an expandable property
+			if not dirty and terminal and not first and rng.random() < 0.3:
+				keys = [[rng.choice(keypool), True]]  # harmless: a terminal whose list property is always empty
+				empty_keys = [keys[0][0]]
+			if not dirty and not terminal and rng.random() < 0.12:
+				# harmless: a subclass redeclares a list property that is always empty (prop_keys() repeats the key)
+				bk = rng.choice(keypool)
+				classes.append({'terminal': False, 'keys': [[bk, True]], 'base': None, 'empty_keys': [bk]})
+				level.append(lv)
+				base = len(classes) - 1
+				keys = [[bk, True]] + [k for k in keys if k[0] != bk][:2]
+				empty_keys = [bk]
 			if dirty and not terminal and rng.random() < 0.12:
 				# a subclass redeclares an expandable property of its base: prop_keys() repeats the key
 				bk = rng.choice(keypool)
@@ -365,7 +417,7 @@ def gen_synth_spec(rng: random.Random, dirty: bool) -> dict[str, Any]:
 				level.append(lv)
 				base = len(classes) - 1
 				keys = [[bk, classes[base]['keys'][0][1]]] + [k for k in keys if k[0] != bk][:1]
-			classes.append({'terminal': terminal, 'keys': keys, 'base': base})
+			classes.append({'terminal': terminal, 'keys': keys, 'base': base, 'empty_keys': empty_keys})
 			level.append(lv)
 	nodes: list[dict[str, Any]] = []
 	node_level: list[int] = []
@@ -381,11 +433,15 @@ def gen_synth_spec(rng: random.Random, dirty: bool) -> dict[str, Any]:
 			return rng.choice(reusable)  # the same node object at a second position (equal ids in different places)
 		cands = [i for i in range(len(classes)) if level[i] <= max_level]
 		if depth <= 0:
-			cands = [i for i in cands if not all_keys(i)]
+			cands = [i for i in cands if all(k in classes[i].get('empty_keys', []) or a for k, a in all_keys(i))]
 		ci = rng.choice(cands)
 		vals: dict[str, Any] = {}
+		forced_empty = set(classes[ci].get('empty_keys', [])) | (set(classes[classes[ci]['base']].get('empty_keys', [])) if classes[ci]['base'] is not None else set())
 		for k, ann in all_keys(ci):
 			if k in vals:
+				continue
+			if k in forced_empty:
+				vals[k] = []
 				continue
 			shape_list = ann
 			if dirty and rng.random() < 0.08:
@@ -493,7 +549,7 @@ def run_real_case(rng: random.Random, name: str, ep: Any, kind: str) -> tuple[di
 			real.append('ok')
 		lines.append(f'exec\t{slot}')
 		real.append(real_exec(proc, node))
-	desc = {'kind': kind, 'file': name, 'nodes': len(ex.positions), 'classes': classes, 'unstable': sorted(set(ex.unstable)),
+	desc = {'kind': kind, 'file': name, 'nodes': len(ex.positions), 'classes': classes, 'unstable': sorted(set(ex.unstable)), 'under_stats': dict(ex.under_stats),
 		'wf': real[len(ex.lines) + 2]}
 	return desc, lines, real
 
@@ -771,10 +827,9 @@ def spec_walk(root: Any) -> tuple[list[Any], list[dict[str, Any]]]:
 
 	def visit(n: Any) -> int:
 		ev: dict[str, Any] = {}
-		if n.can_expand:
-			for k in dict.fromkeys(declared_props(type(n))):
-				v = getattr(n, k)
-				ev[k] = [visit(c) for c in v] if isinstance(v, list) else visit(v)
+		for k in dict.fromkeys(declared_props(type(n))):
+			v = getattr(n, k)
+			ev[k] = [visit(c) for c in v] if isinstance(v, list) else visit(v)
 		order.append(n)
 		expect.append(ev)
 		return len(order) - 1
@@ -1016,6 +1071,7 @@ def search_identity(ctx: Ctx, real_descs: list[dict[str, Any]], gen_descs: list[
 	app = common.MemApp(ctx.tmpdir())
 	hist: Counter[str] = Counter()
 	seen: set[str] = set()
+	under_classes: dict[str, set[str]] = {}
 	try:
 		table_bad, stats = class_table_findings()
 	except Exception as e:  # noqa: BLE001
@@ -1076,6 +1132,13 @@ def search_identity(ctx: Ctx, real_descs: list[dict[str, Any]], gen_descs: list[
 		for f in res.findings[before:]:
 			f.replay['spec'] = spec
 	for d in real_descs + gen_descs:
+		for k, v in d.get('under_stats', {}).items():
+			cat, sep, cls = k.rpartition(': ')
+			if sep and cat.startswith(('terminal', 'non-terminal')):
+				hist[f'clause 2: {cat}'] += v
+				under_classes.setdefault(cat, set()).add(cls)
+			else:
+				hist[f'clause 2: {k}'] += v
 		for u in d.get('unstable', []):
 			hist[f'unstable property {u}'] += 1
 			res.findings.append(Finding(key=f'unstable-prop:{u}', what=f'two reads of {u} yield different nodes ({d["file"]}): flattening and event building can disagree',
@@ -1084,6 +1147,8 @@ def search_identity(ctx: Ctx, real_descs: list[dict[str, Any]], gen_descs: list[
 			hist[f"export error {d['export_error']}"] += 1
 			if d['kind'] == 'real':
 				res.findings.append(Finding(key=f"getter-raises:{d['export_error']}", what=f"exporting {d['file']} raised {d['export_error']}", replay={'source_name': d['file']}))
+	for cat, clss in sorted(under_classes.items()):
+		ctx.notes.append(f'WF clause 2, nodes whose properties yield nothing — {cat}: {sorted(clss)}')
 	res.distinct = len(seen)
 	res.histogram = dict(hist)
 	res.note = f'class table: {json.dumps(stats)}'
@@ -1243,6 +1308,92 @@ def search_semantic(ctx: Ctx) -> SearchResult:
 	return res
 
 
+# --- the prop_keys() cache as a class-table model (Model/PropKeys.lean)
+
+
+def class_table_lines(classes: list[type]) -> tuple[list[str], dict[type, int]]:
+	"""Class table as `pk.*` op lines: name, metadata path, MRO restricted to the table, expandable names per path."""
+	from rogw.tranp.syntax.node.embed import EmbedKeys, Meta
+	from rogw.tranp.syntax.node.node import Node
+	table = [Node, *[c for c in classes if c is not Node]]
+	ids = {c: i for i, c in enumerate(table)}
+	lines = ['pk.reset']
+	for c, i in ids.items():
+		mro = [ids[b] for b in c.__mro__ if b in ids]
+		lines.append('\t'.join(['pk.cls', str(i), hx(c.__name__), hx(f'{c.__module__}.{c.__name__}'), ','.join(map(str, mro))]))
+	lines.append(f'pk.node\t{ids[Node]}')
+	seen: set[str] = set()
+	for c in table:
+		path = f'{c.__module__}.{c.__name__}'
+		if path in seen or c is Node:
+			continue
+		seen.add(path)
+		keys = list(Meta.dig_for_method(Node, c, EmbedKeys.Expandable, value_type=bool).keys())
+		lines.append(f"pk.meta\t{hx(path)}\t{','.join(keys) or '-'}")
+	return lines, ids
+
+
+def pk_queries(ids: dict[type, int], order: list[type]) -> tuple[list[str], list[str]]:
+	lines, real = [], []
+	for c in order:
+		lines.append(f'pk.q\t{ids[c]}')
+		try:
+			real.append(','.join(c.prop_keys()) or '-')
+		except Exception as e:  # noqa: BLE001
+			real.append('raised ' + canon_exc(e))
+	for c in ids:
+		lines.append(f'pk.pure\t{ids[c]}')
+		real.append(','.join(declared_props(c)) or '-')
+	return lines, real
+
+
+def gen_class_table(rng: random.Random) -> list[type]:
+	"""Synthetic Node subclasses: single and multiple inheritance, names and metadata paths that recur (also along one MRO),
+	properties redeclared in subclasses."""
+	from rogw.tranp.syntax.node.embed import Meta, expandable
+	from rogw.tranp.syntax.node.node import Node
+	tag = next(_syn_counter)
+	names = ['A', 'B', 'C', 'Ab'] if rng.random() < 0.5 else [f'K{i}' for i in range(8)]
+	mods = [f'{SYN_MODULE}.t{tag}.m1', f'{SYN_MODULE}.t{tag}.m2']
+	keypool = ['a', 'ab', 'b', 'items']
+	classes: list[type] = []
+	for _ in range(rng.randint(2, 8)):
+		name, mod = rng.choice(names), rng.choice(mods)
+		bases: tuple[type, ...] = tuple(rng.sample(classes, min(len(classes), rng.choice([0, 1, 1, 1, 2])))) or (Node,)
+		try:
+			cls = type(name, bases, {'__module__': mod})
+		except TypeError:  # inconsistent MRO
+			cls = type(name, (bases[0],), {'__module__': mod})
+		for key in rng.sample(keypool, rng.choice([0, 0, 1, 1, 2])):
+			def fget(self: Any, _k: str = key) -> Any:
+				return self._vals[_k]
+			fget.__name__ = key
+			fget.__qualname__ = f'{name}.{key}'
+			fget.__module__ = mod
+			fget.__annotations__ = {'return': Node}
+			Meta.embed(Node, expandable)(fget)
+			setattr(cls, key, property(fget))
+		classes.append(cls)
+	return classes
+
+
+def stream_propkeys_synth(ctx: Ctx) -> Stream:
+	rng = ctx.sub_rng('propkeys-synth')
+	cases = []
+	for _ in range(ctx.scale(150, 2000)):
+		classes = gen_class_table(rng)
+		lines, ids = class_table_lines(classes)
+		order = [rng.choice(list(ids)) for _ in range(2 * len(ids))]
+		ql, qr = pk_queries(ids, order)
+		same_name = any(b.__name__ == c.__name__ for c in classes for b in c.__mro__[1:])
+		wrong = any(r != ','.join(declared_props(c)) and not r.startswith('raised') and (r != '-' or declared_props(c)) for c, r in zip(order, qr))
+		cases.append(({'classes': len(classes), 'same_name_on_mro': same_name, 'history_dependent': wrong}, lines + ql, ['ok'] * len(lines) + qr))
+	st = common.correspond('propkeys-synth', cases, 'proc',
+		classify=lambda d: f"same-name-on-mro={d['same_name_on_mro']} history-dependent-answer={d['history_dependent']}")
+	st.note = 'synthetic Node subclass tables (diamonds, recurring names/paths, redeclared properties): real prop_keys() under random call orders vs Model/PropKeys.query on the exported table; pk.pure vs metadata read'
+	return st
+
+
 # --- class-level history: the prop_keys() cache is process-wide class state, so this part runs in fresh processes
 
 
@@ -1292,12 +1443,21 @@ def worker_main() -> None:
 	hist: Counter[str] = Counter()
 	order = query_order(job['mode'], job['seed'])
 	queried: list[str] = []
+	pk_lines, pk_ids = class_table_lines(definition_classes())
+	pk_real = ['ok'] * len(pk_lines)
 	for c in order:
+		pk_lines.append(f'pk.q\t{pk_ids[c]}')
 		try:
-			c.prop_keys()
+			pk_real.append(','.join(c.prop_keys()) or '-')
 		except Exception as e:  # noqa: BLE001
+			pk_real.append('raised ' + canon_exc(e))
 			findings.append({'key': f'prop-keys-raises:{c.__name__}', 'what': f'{c.__name__}.prop_keys() raised {canon_exc(e)}', 'replay': {'queried_before': queried[-20:]}})
 		queried.append(c.__name__)
+	ql, qr = pk_queries(pk_ids, random.Random(f'C09:pk:{job["seed"]}').sample(list(pk_ids), len(pk_ids)))
+	pk_lines += ql
+	pk_real += qr
+	names_distinct = all(b.__name__ != c.__name__ for c in pk_ids for b in c.__mro__[1:] if b in pk_ids)
+	hist['class table: names distinct on every MRO (hypothesis of prop_keys_history_independent)' if names_distinct else 'class table: a class shares its name with one of its bases'] += 1
 	hist[f'classes queried first ({job["mode"]})'] = len(order)
 	pos = {n: i for i, n in reversed(list(enumerate(queried)))}
 	for c in definition_classes():
@@ -1344,7 +1504,7 @@ def worker_main() -> None:
 	finally:
 		import shutil
 		shutil.rmtree(tmp, ignore_errors=True)
-	json.dump({'findings': findings, 'hist': dict(hist)}, sys.stdout)
+	json.dump({'findings': findings, 'hist': dict(hist), 'pk_lines': pk_lines, 'pk_real': pk_real}, sys.stdout)
 
 
 def run_worker(job: dict[str, Any]) -> dict[str, Any]:
@@ -1356,6 +1516,9 @@ def run_worker(job: dict[str, Any]) -> dict[str, Any]:
 	if rc != 0:
 		raise common.InfraError(f'C09 worker failed (mode {job["mode"]}): {err[-1500:]}')
 	return json.loads(out)
+
+
+PK_REAL_CASES: list[tuple[Any, list[str], list[str]]] = []
 
 
 def search_prop_keys_history(ctx: Ctx) -> SearchResult:
@@ -1381,6 +1544,7 @@ def search_prop_keys_history(ctx: Ctx) -> SearchResult:
 		for i in range(ctx.scale(6, 30)):
 			sources.append([f'generated#{i}', gen.program()])
 		out = run_worker({'mode': mode, 'seed': seed, 'sources': sources, 'must_hold': must_hold})
+		PK_REAL_CASES.append(({'order': mode, 'seed': seed}, out['pk_lines'], out['pk_real']))
 		res.cases += 1 + out['hist'].get('trees', 0)
 		for k, v in out['hist'].items():
 			hist[k if not k.startswith('classes queried') else f'{k}'] += v
@@ -1445,30 +1609,37 @@ def search_nested_catch(ctx: Ctx) -> SearchResult:
 
 
 STATEMENTS = {
-	'event': 'for every WF tree, handler table, budget and initial stacks: when a visited node n is processed the frame is (results of n\'s own property nodes) ++ fr\', __make_event returns exactly the per-property reference event (single vs list, order) and leaves fr\'',
+	'event': 'for every WF tree, handler table, budget and initial stacks: when a visited node n is processed the frame is (results of n\'s own property nodes) ++ fr\', __make_event returns exactly the reference kwargs dict (single vs list, order, dict semantics for a repeated key) and leaves fr\'',
 	'final': 'exec of a WF tree returns exactly the reference result (value or exception) and on success restores the stack-of-stacks, from any initial stacks',
 	'final_frame': 'the frame at __result is [result root]',
 	'no_leak': 'the event of n is the same wherever n sits (other roots, siblings, stacks); only its own results leave the frame',
 	'nested': 'for every tree (WF or not): an exec that returns leaves the stack-of-stacks as found, if handlers do not catch nested failures',
-	'wf_necessary_under / _terminal / _dupkey / _annotation / _annotation_len': 'each WFNode clause is needed: a witness tree on which exec differs from the reference (kernel-evaluated)',
+	'wf_necessary': 'GENERAL necessity: for every key-consistent tree with a visited non-WF node there is a handler table (returning handlers + at most one nesting handler, none catching) on which exec differs from the reference, for every budget >= 2 and every initial stacks; so WF is exactly the obligation. WF was weakened to what is necessary: terminals may declare properties that yield empty lists; a repeated key is allowed when its value is an empty list',
 	'failed_run_leaves_frame': 'a failing exec leaves its frame behind (no finally)',
 	'failed_nested_counterexample': 'NOT failed_nested_statement: with a handler that catches a nested failure the outer run is corrupted (witness replayed on the real code)',
+	'prop_keys_history_independent(_from)': 'Node.prop_keys over any class table whose MROs have pairwise distinct class names: for every order/repetition of calls each answer is the cache-free MRO computation (invariant: cache subset of the graph of the pure function)',
+	'prop_keys_fixed_key_counterexample': 'NOT prop_keys_fixed_key_statement: with the attribute name not carrying the class name (the seeded mutation) a subclass asked after its base answers with the base\'s list',
+	'prop_keys_same_name_counterexample': 'NOT prop_keys_any_names_statement: on the code as it is, a subclass sharing __name__ with a base inherits the base\'s cached answer (latent; no tranp node class does; real code agrees with the model on such synthetic tables)',
+	'under_empty_iff / under_clause_iff': '_under_expand() = C10 expandPaths resolved to nodes is empty iff the entry is quiet (no child, or only unresolvable tree entries within 3 levels); so WF clause 2 can fail only for a non-ITerminal class whose properties yield nothing on a non-quiet entry',
 }
 
 
 def run(ctx: Ctx) -> int:
 	proof = common.prove(ctx, PROP, leanchecker=ctx.thorough)
+	with ctx.timed('search_prop_keys_history'):
+		# fresh processes; also yields the real class table and the real prop_keys() answers for the propkeys-real stream
+		s3 = search_prop_keys_history(ctx)
 	with ctx.timed('correspondence'):
 		s_real, real_descs = stream_real(ctx)
 		s_gen, gen_descs = stream_generated(ctx)
-		streams = [stream_corpus(ctx), stream_synth(ctx, False), stream_synth(ctx, True), s_real, s_gen]
+		s_pk = common.correspond('propkeys-real', PK_REAL_CASES, 'proc', classify=lambda d: f"order {d['order']}")
+		s_pk.note = 'real class table (every node class + Node: name, metadata path, MRO, expandable names) and real prop_keys() answers under several call orders, each in a fresh process, vs Model/PropKeys.query; pk.pure vs metadata read'
+		streams = [stream_corpus(ctx), stream_synth(ctx, False), stream_synth(ctx, True), s_real, s_gen, stream_propkeys_synth(ctx), s_pk]
 	with ctx.timed('search'):
 		with ctx.timed('search_identity'):
 			s1 = search_identity(ctx, real_descs, gen_descs)
 		with ctx.timed('search_semantic'):
 			s2 = search_semantic(ctx)
-		with ctx.timed('search_prop_keys_history'):
-			s3 = search_prop_keys_history(ctx)
 		searches = [s1, s2, s3, search_nested_catch(ctx)]
 	return common.finish(ctx, proof, streams, searches,
 		statements=STATEMENTS,
@@ -1476,10 +1647,12 @@ def run(ctx: Ctx) -> int:
 			'proved': 'event alignment, single/list distinction, order, no leak between siblings, exactly one final result, stacks restored, nested runs isolated — for every tree satisfying WF and every handler program that does not catch nested failures',
 			'correspondence_only': 'that real node trees satisfy WF (checked on every exported tree and on the class table); that property getters are stable between the two reads',
 			'false_on_current_code': 'failed_nested_statement (handler catching a nested failure) — no such handler exists in tranp',
-			'not_proved': 'wf_necessary as a statement about every non-WF tree (witness per clause instead)',
+			'checked_on_real_trees': 'under_empty_iff against the real Nodes.expand on every real node whose properties yield nothing; which classes have a non-empty _under_expand() there (all ITerminal, so never consulted)',
 		},
 		assumptions=[
 			'property getters are pure between procedural() and __make_event (checked: two reads compared on every exported node)',
+			'KeyConsistent (hypothesis of wf_necessary): getattr(node, key) is a function of the key',
+			'NamesDistinctOnMro (hypothesis of prop_keys_history_independent): checked on the real class table in every fresh process',
 			'handlers touch the procedure only through exec (stacks are name-mangled private state)',
 			'Python recursion limit is not reached (model: nesting budget)',
 		],
